@@ -35,12 +35,16 @@ func init() {
 			"bijection onto the S³ cells of a block and every S in the code agrees; writer and reader place a sample at the same world cell. " +
 			"CHUNK-1/RANGE-1/2/ALLOC-1: floor-division block coordinates, per-block clamps and the block list cover exactly the padded domain; the " +
 			"block allocator is a correct lookup-or-add. PAD-1/2: one padding cell on each side on all axes. MERGE-1/WELD-1/SHARE-1/SCALE-1: vertices " +
-			"shared by position in a block, all blocks merged, welded on the marched attribute, scaled by the sampling factor. Not decided: geometric " +
+			"shared by position in a block, all blocks merged, welded on the marched attribute, scaled by the sampling factor. FIELD-IDX/TREE/ALL/CAP: " +
+			"in fields assembled from members through an octree query (CombineFields, MultiSegmentLine) the per-member tables are subscripted with " +
+			"the element ids read from the query result (never the position in the hit list or a constant), the tree is built over exactly those " +
+			"members in table order, every hit is folded, and the closure sees the table and tree of the iteration that created it. Not decided: geometric " +
 			"closeness for non-linear fields, decimal rounding merging distinct vertices at high resolution, degenerate triangles when a sample equals " +
 			"the threshold, whether a shape's declared domain really contains its inside, numeric volume, the parallel variants (C10).",
 		Assumptions: []string{
 			"EliCDavis/vector's Add/Sub/Scale/DivByConstant/Lerp/Midpoint act component-wise (taken from the published API, not re-derived)",
 			"real arithmetic: the interpolant identity is decided over the rationals, not over float64",
+			"a trees query answers with positions of the slice the tree was constructed from (C16 IDENT-1)",
 		},
 		Controls: controls,
 		Run:      run,
@@ -117,12 +121,13 @@ func run(c *props.Ctx) {
 	weldRules(c, path, blockSite)
 	engineSelfTest(c, t)
 	siteControls(c, ctl, ax)
+	fieldIdxRules(c, sp)
 	dump(c)
 
 	// vacuity floors guard a *passing* run against rules that silently match nothing; when something is
 	// already reported, downstream rules legitimately did not run and the floors would only add noise
 	for _, o := range c.R.Obs {
-		if !o.Control && o.Verdict != ob.Holds {
+		if !o.Control && o.Verdict != ob.Holds && !strings.HasPrefix(o.Rule, "FIELD-") {
 			c.R.Note("vacuity floors not applied: the run already reports %s %s", o.Rule, o.Construct)
 			return
 		}
